@@ -7,7 +7,7 @@ import numpy as np
 
 from .. import engine, optics as op, tlc
 from .. import histories
-from ..histories import t_callhist        # worker task of the history harness (mc/histories.py)
+from ..histories import t_callhist, t_cross      # worker tasks of the history harness (mc/histories.py)
 from ..engine import LENTIL_SRC
 
 PID = 'C08'
